@@ -35,16 +35,16 @@ CLAIMED = {
          "The executor honouring the decisions (async run_request_speculative_fiber, pager, speculative execution) is NOT decided. Trusted: mir2smt translator, models of derived PartialEq / reference comparisons / tracing-disabled, enum variant order parsed from source.",
          S),
  "C08": ("DESIGN.md §5 C08",
-         "Absence of panic / out-of-bounds / arithmetic overflow (Kani's built-in checks, dev profile) for the synchronous low-level parsers on EVERY byte string of the stated small sizes: primitive readers (int, short, lengths, value, bytes, short bytes, consistency, uuid, long; thorough: string / long string), typed cells of 11 native carriers at every interesting body length (too short, exact, too long, invalid UTF-8, non-ASCII, out-of-range time), and the tracing-id part of parse_response_body_extensions; successful reads advance the cursor by exactly the bytes consumed and never past the end.",
-         "Sizes are tiny (<= 17 bytes) and lengths concrete per case (symbolic lengths do not finish in CBMC). NOT decided: the resource clauses (stack depth, allocation out of proportion: CBMC has no stack/heap-size model; see DESIGN §7 for the sites observed), result metadata / rows / ERROR / EVENT / SUPPORTED bodies, custom type parser, warnings and custom payload extensions (Vec<String>/HashMap construction), LZ4/Snappy, the async frame reader, container iterators on arbitrary bytes.",
-         K),
+         "Two layers. (K) absence of panic / out-of-bounds / arithmetic overflow (Kani's built-in checks, dev profile) for the synchronous low-level parsers on EVERY byte string of the stated small sizes: primitive readers, typed cells of 11 native carriers at every interesting body length, the tracing-id part of parse_response_body_extensions; successful reads advance the cursor by exactly the bytes consumed. (S) response bodies decoded from MIR against an independent CQL v4 encoder, all scalar fields and text bytes symbolic: ERROR bodies of every error code (+ negotiated rate-limit code, + arbitrary unknown code) decode to exactly what was encoded and every truncation of them is refused; column-type ids - ALL 65536 ids symbolic (the 20 native ids map to the protocol table, everything else refused) plus list/set/map/tuple/UDT encodings to depth 2 with exact consumption and every truncation; result metadata for all 16 flag combinations x metadata-id extension (column count, id, paging state, table spec / name / type per column, exact consumption, id with NO_METADATA refused); EVENT bodies (topology / status with IPv4 / IPv6, schema changes of all targets, unknown kinds refused, every truncation); AUTHENTICATE / AUTH_SUCCESS / AUTH_CHALLENGE (token absent for every negative length) / SUPPORTED; the opcode tables for all 256 bytes.",
+         "K sizes are tiny (<= 17 bytes) and lengths concrete per case. NOT decided: the resource clauses (stack depth, allocation out of proportion: no stack/heap-size model; see DESIGN §7 for the sites observed), rows and the lazily decoded ROWS metadata, the custom type parser (type id 0), warnings and custom payload extensions, LZ4/Snappy, the async frame reader, non-ASCII text (from_utf8 is library code), arbitrary corruption of inner length fields beyond the truncation sweeps.",
+         K + " + " + S),
  "C09": ("DESIGN.md §5 C09",
-         "Every request kind the driver builds is decided against an independent CQL v4 request encoder, byte for byte, with all scalar fields and content bytes symbolic: QUERY (QueryParameters::serialize for every subset of the optional fields x small value lists; whole frame incl. the compressed shape), EXECUTE (statement id, optional result-metadata id, parameters; legacy Execute too), PREPARE, OPTIONS, AUTH_RESPONSE (no token / empty / bytes), STARTUP (string map), REGISTER (event names through the Display impl), BATCH (mixed prepared / unprepared statements, per-statement value lists with patched counts, type, consistency, serial / timestamp flags) - each under SerializedRequest::make: version 4, tracing flag, stream 0, the request's opcode, length = body size. Value-list / statement count mismatches in BATCH are refused in both directions; the checked length writers refuse every oversize length (all usize values) and otherwise write the exact big-endian prefix.",
+         "Every request kind the driver builds is decided against an independent CQL v4 request encoder, byte for byte, with all scalar fields and content bytes symbolic: QUERY (QueryParameters::serialize for every subset of the optional fields x small value lists; whole frame incl. the compressed shape), EXECUTE (statement id, optional result-metadata id, parameters; legacy Execute too), PREPARE, OPTIONS, AUTH_RESPONSE (no token / empty / bytes), STARTUP (string map), REGISTER (event names through the Display impl), BATCH (mixed prepared / unprepared statements, per-statement value lists with patched counts, type, consistency, serial / timestamp flags) - each under SerializedRequest::make: version 4, tracing flag, stream 0, the request's opcode, length = body size. Value-list / statement count mismatches in BATCH are refused in both directions; the numeric values of Consistency / SerialConsistency / BatchType / RequestOpcode variants as compiled equal the protocol's codes; the checked length writers refuse every oversize length (all usize values) and otherwise write the exact big-endian prefix.",
          "Shapes are small and concrete in length (ids <= 16 bytes, texts <= 3 bytes, <= 3 (4) batch statements, <= 2 cells per list, paging state <= 2 bytes); LZ4/Snappy bodies are replaced by an opaque body (only the header of compressed frames is checked); BATCH is instantiated with Vec<SerializedValues> (the typed RawBatchValuesAdapter path is C01/C17 territory); HashMap iteration order is an arbitrary fixed order. Trusted: mir2smt + library models (byte sink, iterator adaptors, Display-to-string).",
          S),
  "C11": ("DESIGN.md §5 C11",
-         "shard_of == ScyllaDB's formula and < nr_shards for ALL tokens x shard counts 1..=65535 x msb 0..=63; lowest-port rule for ALL valid port ranges and shard counts (Some = lowest congruent port in range, None iff none exists); ShardInfo::new rejects iff shard >= nr_shards; draw_source_port_for_shard_from_range and iter_source_ports_for_shard_from_range decided for ALL ranges/shard counts with the RNG draw a symbolic value and the iterator chain given abstract sequence semantics (every yielded port is in range and congruent, every such port is yielded once, none when there is none); Kani cross-check of the same glue on small windows.",
-         "INT encoding (explicit mod 2^k) for the arithmetic; translator validated every run against native execution on seeded inputs. Lemma L1 ((x + y*m) mod m == x mod m) is an ASSUMPTION of the glue obligations (no installed solver discharges it in INT or 34-bit BV within the cap; listed in the obligation's assumes). msb_ignore >= 64 and SUPPORTED-options parsing (HashMap) outside.",
+         "shard_of == ScyllaDB's formula and < nr_shards for ALL tokens x shard counts 1..=65535 x msb 0..=63; lowest-port rule for ALL valid port ranges and shard counts (Some = lowest congruent port in range, None iff none exists); ShardInfo::new rejects iff shard >= nr_shards; ShardInfo::try_from(&SUPPORTED options) yields a ShardInfo iff the three SCYLLA_* options are present, non-empty, parse, nr_shards != 0 and shard < nr_shards (27 presence patterns x arbitrary parse results); draw_source_port_for_shard_from_range and iter_source_ports_for_shard_from_range decided for ALL ranges/shard counts with the RNG draw a symbolic value and the iterator chain given abstract sequence semantics (every yielded port is in range and congruent, every such port is yielded once, none when there is none); Kani cross-check of the same glue on small windows.",
+         "INT encoding (explicit mod 2^k) for the arithmetic; translator validated every run against native execution on seeded inputs. Lemma L1 ((x + y*m) mod m == x mod m) is an ASSUMPTION of the glue obligations (no installed solver discharges it in INT or 34-bit BV within the cap; listed in the obligation's assumes). msb_ignore >= 64 and the decimal parsing of option values (std) outside.",
          S + " + " + K),
  "C14": ("DESIGN.md §5 C14",
          "Decision kernels only: Connection::calculate_cached_metadata_params and Connection::handle_result_metadata_new_id (pure functions inside the asynchronous execute path), for every combination of negotiated metadata-id extension, statement setting, cached metadata with any column count and with or without an id: the response's metadata may be omitted only when cached metadata with at least one column exists and then exactly that metadata is handed to the row decoder; a result-metadata id goes into EXECUTE iff the extension was negotiated, and it is the id of the metadata that will decode the rows (empty when there is none or when fresh metadata is requested); after a ROWS response the statement's current metadata is replaced - by exactly the response's metadata - iff that carries an id that differs from the current one, or equals it while the current metadata has no columns and the response's has some.",
@@ -112,4 +112,4 @@ def manifest():
         "notes": "Technique family: solver-based checking of the real code. exit 0 = all obligations discharged within stated bounds; exit 1 = reproducing counterexample; exit 2 = inconclusive (never reported as pass).",
     }
 
-HOOK_COMMITS = ['1dd854c', 'c81cb68', '3bca3b6', '3ff90ff', 'ace7ba7', '423595e', '1865a12', '55a0502', '6db07cc', '8989f50', 'b07dfd2', '2f1ba89', '2f862e8', 'adaafd7', '8ddb525', 'a6c1b91']
+HOOK_COMMITS = ['1dd854c', 'c81cb68', '3bca3b6', '3ff90ff', 'ace7ba7', '423595e', '1865a12', '55a0502', '6db07cc', '8989f50', 'b07dfd2', '2f1ba89', '2f862e8', 'adaafd7', '8ddb525', 'a6c1b91', 'c0e73a9', 'd95edf8']
